@@ -148,7 +148,9 @@ def build_and_audit(prop: str) -> dict:
     lock = open(LEAN / ".build.lock", "w")
     fcntl.flock(lock, fcntl.LOCK_EX)
     try:
-        r = _lake(["build"])  # whole library (globs = Molgri.+)
+        # only what this property needs: its theorem modules and its driver handler (setup_cmd builds everything)
+        targets = sorted({t["module"] for t in load_theorems(prop)} | {f"Molgri.Drv.{prop}"})
+        r = _lake(["build"] + targets)
         if r.returncode != 0:
             res["ok"] = False
             res["problems"].append("lake build failed: " + (r.stdout + r.stderr)[-2000:])
